@@ -665,7 +665,14 @@ def pred_leverage(call, out):
     if abs(float(np.sum(v)) - 1) > (tolv if call["M"].dtype == np.float64 else 1e-12):
         fails.append(("C20_leverage_simplex", f"leverage scores sum to {float(np.sum(v))!r} != 1"))
     if call.get("stream") == "near_cutoff":
-        return fails      # the rank decision sits at the eps scale: decided by the model on the recorded singular values
+        # the generator placed the second singular value a factor 1.3 away from both candidate cut-offs: under the documented
+        # rule max(S) * max(shape) * eps the numerical rank is 1 and the scores are the squared entries of the first left
+        # singular vector
+        U1 = np.linalg.svd(M, full_matrices=False)[0][:, 0]
+        if np.max(np.abs(U1 ** 2 - v)) > 1e-8:
+            fails.append(("C20_leverage_def", "second singular value below max(S) * max(shape) * eps, yet the scores are not those of "
+                                              "numerical rank 1 (squared first left singular vector)"))
+        return fails
     k = np.linalg.matrix_rank(M)
     proj = M @ np.linalg.pinv(M)
     if k > 0 and np.max(np.abs(np.diag(proj) / k - v)) > (1e-8 if call["M"].dtype == np.float64 else 1e-4):
@@ -706,7 +713,7 @@ def gen_leverage(tier, rng):
             break
         n = rng.randint(4, 8); k2 = rng.randint(44, 52); c = rng.choice([1.0, 2.0, 0.5, 3.0])
         M = np.full((n, 2), c); M[rng.randrange(n), 1] = c * (1 + 2.0 ** (-k2))
-        if rng.random() < 0.5:
+        if got % 3 == 2:       # wide: there U is 2 x 2 and both candidate ranks give the same scores; tall: they differ
             M = M.T.copy()
         S = np.asarray(tl.svd(tl.tensor(M.copy()), full_matrices=False)[1])
         lo = S[0] * min(M.shape) * EPS64; hi = S[0] * max(M.shape) * EPS64
